@@ -517,10 +517,22 @@ pub fn run_batch<P: Property>(p: &P, opts: &Opts) -> BatchReport {
     let next = AtomicU64::new(0);
     let merged: Mutex<Vec<Acc<P::Sc>>> = Mutex::new(Vec::new());
     const CHUNK: u64 = 32;
+    let nworkers = opts.workers.max(1);
+    // per-worker "busy since" slots for the wall-clock hang watchdog
+    let slots: Vec<(AtomicU64, AtomicU64, AtomicU64)> = (0..nworkers)
+        .map(|_| (AtomicU64::new(0), AtomicU64::new(0), AtomicU64::new(0)))
+        .collect();
+    let done = std::sync::atomic::AtomicBool::new(false);
+    let hang_ms: u64 = std::env::var("PKGSIM_HANG_MS").ok().and_then(|s| s.parse().ok()).unwrap_or(3000);
     std::thread::scope(|s| {
-        for _ in 0..opts.workers.max(1) {
-            s.spawn(|| {
+        let mut handles = Vec::new();
+        for w in 0..nworkers {
+            let slots = &slots;
+            let next = &next;
+            let merged = &merged;
+            handles.push(s.spawn(move || {
                 let mut acc: Acc<P::Sc> = Acc::new();
+                let slot = &slots[w];
                 loop {
                     let start = next.fetch_add(CHUNK, Ordering::Relaxed);
                     if start >= runs {
@@ -529,19 +541,88 @@ pub fn run_batch<P: Property>(p: &P, opts: &Opts) -> BatchReport {
                     for run in start..(start + CHUNK).min(runs) {
                         let mut rng = Rng::new(run_seed(opts.seed, id, run));
                         let sc = p.generate(&mut rng, run, opts.tier);
+                        slot.1.store(run, Ordering::Relaxed);
+                        slot.2.store(0, Ordering::Relaxed);
+                        slot.0.store(t0.elapsed().as_millis() as u64 + 1, Ordering::Release);
                         let out = exec_one(p, &sc, false);
+                        slot.0.store(0, Ordering::Release);
                         record(p, &mut acc, run, 0, &sc, out);
                         if !opts.no_sweep {
                             for (i, s2) in p.sweep(&sc, run, opts.tier).into_iter().enumerate() {
+                                slot.2.store(i as u64 + 1, Ordering::Relaxed);
+                                slot.0.store(t0.elapsed().as_millis() as u64 + 1, Ordering::Release);
                                 let out = exec_one(p, &s2, false);
+                                slot.0.store(0, Ordering::Release);
                                 record(p, &mut acc, run, i as u64 + 1, &s2, out);
                             }
                         }
                     }
                 }
                 merged.lock().unwrap().push(acc);
-            });
+            }));
         }
+        // watchdog: the only wall-clock element.  A run busy for longer than
+        // hang_ms is re-executed alone in a child process before anything is
+        // reported, so machine load cannot raise an alarm.
+        let slots = &slots;
+        let done_ref = &done;
+        s.spawn(move || {
+            let mut excused: Vec<u64> = vec![0; nworkers];
+            while !done_ref.load(Ordering::Acquire) {
+                std::thread::sleep(std::time::Duration::from_millis(50));
+                let now = t0.elapsed().as_millis() as u64 + 1;
+                for w in 0..nworkers {
+                    let since = slots[w].0.load(Ordering::Acquire);
+                    if since == 0 || since == excused[w] || now < since + hang_ms {
+                        continue;
+                    }
+                    let run = slots[w].1.load(Ordering::Relaxed);
+                    let sub = slots[w].2.load(Ordering::Relaxed);
+                    if slots[w].0.load(Ordering::Acquire) != since {
+                        continue;
+                    }
+                    // regenerate the scenario (generation is a pure function of the seed)
+                    let mut rng = Rng::new(run_seed(opts.seed, id, run));
+                    let base = p.generate(&mut rng, run, opts.tier);
+                    let sc = if sub == 0 {
+                        Some(base)
+                    } else {
+                        p.sweep(&base, run, opts.tier).into_iter().nth(sub as usize - 1)
+                    };
+                    let sc = match sc {
+                        Some(s) => s,
+                        None => {
+                            excused[w] = since;
+                            continue;
+                        }
+                    };
+                    eprintln!(
+                        "pkgsim: run {} (sub {}) busy for more than {} ms; confirming alone in a child process",
+                        run, sub, hang_ms
+                    );
+                    match exec_in_child(p, &sc, std::time::Duration::from_millis(hang_ms * 3 + 1000)) {
+                        ChildRes::TimedOut => {
+                            report_hang(p, opts, run, sub, &sc, hang_ms);
+                            crate::disk::cleanup_all();
+                            std::process::exit(1);
+                        }
+                        ChildRes::Crashed(code) => {
+                            report_crash(p, opts, run, sub, &sc, code);
+                            crate::disk::cleanup_all();
+                            std::process::exit(1);
+                        }
+                        _ => {
+                            eprintln!("pkgsim: run {} finished in time when run alone; not a hang (machine load)", run);
+                            excused[w] = since;
+                        }
+                    }
+                }
+            }
+        });
+        for h in handles {
+            let _ = h.join();
+        }
+        done.store(true, Ordering::Release);
     });
     let accs = merged.into_inner().unwrap();
     // merge (all operations commutative, or resolved by lowest run index)
@@ -783,6 +864,26 @@ pub fn replay<P: Property>(p: &P, file: &Path) -> Result<bool, String> {
         ));
     }
     let sc: P::Sc = serde_json::from_value(rf.scenario).map_err(|e| format!("scenario: {}", e))?;
+    // first alone in a child process with a time limit: a scenario that hangs
+    // or kills the process must not take the replay command with it
+    let limit: u64 = std::env::var("PKGSIM_REPLAY_LIMIT_MS").ok().and_then(|s| s.parse().ok()).unwrap_or(20_000);
+    match exec_in_child(p, &sc, std::time::Duration::from_millis(limit)) {
+        ChildRes::TimedOut => {
+            println!(
+                "replay: the scenario does not finish within {} ms (recorded signature {})",
+                limit, rf.signature
+            );
+            println!("VIOLATION property={} replay={}", p.id(), file.display());
+            return Ok(true);
+        }
+        ChildRes::Crashed(code) => {
+            println!("replay: the scenario killed the child process (status {})", code);
+            println!("VIOLATION property={} replay={}", p.id(), file.display());
+            return Ok(true);
+        }
+        ChildRes::SpawnFailed(e) => return Err(format!("cannot run the scenario in a child process: {}", e)),
+        ChildRes::Finished(_) => {}
+    }
     let out = exec_one(p, &sc, true);
     for l in out.ctx.trace.as_deref().unwrap_or(&[]) {
         println!("  {}", l);
@@ -868,4 +969,235 @@ pub fn shrink_usize(n: usize) -> Vec<usize> {
     }
     out.dedup();
     out
+}
+
+// ---------------------------------------------------------------------------
+// Child-process execution: the only way to bound a call that may never return
+// ---------------------------------------------------------------------------
+
+pub enum ChildRes {
+    /// finished; Some(signature) when it ended in a violation
+    Finished(Option<String>),
+    TimedOut,
+    Crashed(i32),
+    SpawnFailed(String),
+}
+
+static CHILD_SEQ: AtomicU64 = AtomicU64::new(0);
+
+/// Child mode: load a bare scenario, execute it once, print the outcome.
+pub fn child_exec_main<P: Property>(p: &P, file: &Path) -> i32 {
+    let s = match std::fs::read_to_string(file) {
+        Ok(s) => s,
+        Err(e) => {
+            eprintln!("pkgsim: child: {}: {}", file.display(), e);
+            return 2;
+        }
+    };
+    let sc: P::Sc = match serde_json::from_str(&s) {
+        Ok(v) => v,
+        Err(e) => {
+            eprintln!("pkgsim: child: bad scenario: {}", e);
+            return 2;
+        }
+    };
+    let out = exec_one(p, &sc, false);
+    match out.outcome {
+        Ok(()) => println!("OUTCOME ok"),
+        Err(v) => println!("OUTCOME violation {}", v.signature()),
+    }
+    0
+}
+
+pub fn exec_in_child<P: Property>(p: &P, sc: &P::Sc, timeout: std::time::Duration) -> ChildRes {
+    let dir = crate::disk::scratch_base();
+    if let Err(e) = std::fs::create_dir_all(&dir) {
+        return ChildRes::SpawnFailed(format!("{}: {}", dir.display(), e));
+    }
+    let file = dir.join(format!("child-{}.json", CHILD_SEQ.fetch_add(1, Ordering::Relaxed)));
+    if let Err(e) = std::fs::write(&file, serde_json::to_string(sc).unwrap_or_default()) {
+        return ChildRes::SpawnFailed(format!("{}: {}", file.display(), e));
+    }
+    let exe = match std::env::current_exe() {
+        Ok(e) => e,
+        Err(e) => return ChildRes::SpawnFailed(e.to_string()),
+    };
+    let mut child = match std::process::Command::new(exe)
+        .arg(p.id())
+        .arg("--exec-scenario")
+        .arg(&file)
+        .stdout(std::process::Stdio::piped())
+        .stderr(std::process::Stdio::null())
+        .spawn()
+    {
+        Ok(c) => c,
+        Err(e) => return ChildRes::SpawnFailed(e.to_string()),
+    };
+    let t = Instant::now();
+    let res = loop {
+        match child.try_wait() {
+            Ok(Some(status)) => {
+                let mut out = String::new();
+                if let Some(mut o) = child.stdout.take() {
+                    use std::io::Read;
+                    let _ = o.read_to_string(&mut out);
+                }
+                if status.success() {
+                    let sig = out
+                        .lines()
+                        .find_map(|l| l.strip_prefix("OUTCOME violation ").map(|s| s.to_string()));
+                    break ChildRes::Finished(sig);
+                }
+                use std::os::unix::process::ExitStatusExt;
+                break ChildRes::Crashed(status.signal().map(|s| 128 + s).or(status.code()).unwrap_or(-1));
+            }
+            Ok(None) => {
+                if t.elapsed() > timeout {
+                    let _ = child.kill();
+                    let _ = child.wait();
+                    break ChildRes::TimedOut;
+                }
+                std::thread::sleep(std::time::Duration::from_millis(5));
+            }
+            Err(e) => break ChildRes::SpawnFailed(e.to_string()),
+        }
+    };
+    let _ = std::fs::remove_file(&file);
+    res
+}
+
+fn write_replay_file<P: Property>(
+    p: &P,
+    opts: &Opts,
+    run: u64,
+    sub: u64,
+    sc: &P::Sc,
+    sig: &str,
+    class: &str,
+    detail: &str,
+    execs: usize,
+) -> Option<PathBuf> {
+    let file = opts.root.join("replays").join(format!(
+        "{}-s{}-r{}{}-{:08x}.json",
+        p.id(),
+        opts.seed,
+        run,
+        if sub > 0 { format!("x{}", sub) } else { String::new() },
+        (hash_str(&format!("{}|{}", sig, class)) & 0xffff_ffff)
+    ));
+    let rf = ReplayFile {
+        property: p.id().to_string(),
+        seed: opts.seed,
+        run,
+        sub,
+        signature: sig.to_string(),
+        class: class.to_string(),
+        detail: detail.to_string(),
+        event_digest: String::new(),
+        minimise_execs: execs,
+        trace: Vec::new(),
+        scenario: serde_json::to_value(sc).unwrap_or(Value::Null),
+    };
+    let _ = std::fs::create_dir_all(opts.root.join("replays"));
+    match std::fs::write(&file, serde_json::to_string_pretty(&rf).unwrap()) {
+        Ok(()) => Some(file),
+        Err(e) => {
+            eprintln!("pkgsim: harness error: cannot write {}: {}", file.display(), e);
+            None
+        }
+    }
+}
+
+fn write_abort_evidence<P: Property>(p: &P, opts: &Opts, what: &str) {
+    if !opts.write_evidence {
+        return;
+    }
+    let ev = json!({
+        "property_id": p.id(),
+        "tier": opts.tier.name(),
+        "seed": opts.seed,
+        "level": p.level(),
+        "coverage": {
+            "evaluations": 1,
+            "distinct_nontrivial": 0,
+            "rule": p.rule(),
+            "samples": [],
+            "explanation": format!("batch aborted: {}", what),
+        },
+        "assumptions": p.assumptions(),
+        "wall_s": 0.0,
+        "violations": 1,
+    });
+    let dir = opts.root.join("evidence");
+    let _ = std::fs::create_dir_all(&dir);
+    let _ = std::fs::write(dir.join(format!("{}.json", p.id())), serde_json::to_string_pretty(&ev).unwrap() + "\n");
+}
+
+/// A confirmed hang: shrink it in child processes (bounded), write the replay
+/// file and print the VIOLATION line.  The caller exits the process.
+fn report_hang<P: Property>(p: &P, opts: &Opts, run: u64, sub: u64, sc: &P::Sc, hang_ms: u64) {
+    let sig = "hang";
+    let class = p.classify(sc, &Violation::new("hang", String::new()));
+    let known = load_known(&opts.root).unwrap_or_default();
+    let v = Violation::new("hang", format!("a single run did not finish within {} ms, alone in a child process", hang_ms * 3 + 1000));
+    if let Some(k) = known_match(&known, p.id(), &v, &class) {
+        // cannot continue the batch (a worker thread is stuck): report and stop
+        println!("KNOWN-FINDING: property={} {} [signature=hang class={}]", p.id(), k.what, class);
+        println!("pkgsim {}: batch stopped early at run {} because a known hang cannot be cancelled", p.id(), run);
+        write_abort_evidence(p, opts, "known hang reached");
+        crate::disk::cleanup_all();
+        std::process::exit(0);
+    }
+    // bounded shrinking: a candidate "still hangs" when it does not finish within hang_ms
+    let t = Instant::now();
+    let mut cur = sc.clone();
+    let mut execs = 0usize;
+    let step_ms = (hang_ms / 3).max(300);
+    'outer: while t.elapsed().as_secs() < 180 {
+        for c in p.shrink(&cur) {
+            if t.elapsed().as_secs() >= 180 {
+                break 'outer;
+            }
+            execs += 1;
+            if let ChildRes::TimedOut = exec_in_child(p, &c, std::time::Duration::from_millis(step_ms)) {
+                cur = c;
+                continue 'outer;
+            }
+        }
+        break;
+    }
+    // the minimised scenario must still exceed the full confirmation budget
+    if !matches!(
+        exec_in_child(p, &cur, std::time::Duration::from_millis(hang_ms * 3 + 1000)),
+        ChildRes::TimedOut
+    ) {
+        cur = sc.clone();
+    }
+    println!(
+        "violation: property={} signature=hang class={} first_run={} detail={}",
+        p.id(),
+        class,
+        run,
+        v.detail
+    );
+    if let Some(f) = write_replay_file(p, opts, run, sub, &cur, sig, &class, &v.detail, execs) {
+        println!("VIOLATION property={} replay={}", p.id(), f.display());
+    }
+    write_abort_evidence(p, opts, "hang confirmed");
+}
+
+fn report_crash<P: Property>(p: &P, opts: &Opts, run: u64, sub: u64, sc: &P::Sc, code: i32) {
+    let class = p.classify(sc, &Violation::new("abort", String::new()));
+    let detail = format!("executing the scenario alone in a child process killed it (status {})", code);
+    println!(
+        "violation: property={} signature=abort class={} first_run={} detail={}",
+        p.id(),
+        class,
+        run,
+        detail
+    );
+    if let Some(f) = write_replay_file(p, opts, run, sub, sc, "abort", &class, &detail, 0) {
+        println!("VIOLATION property={} replay={}", p.id(), f.display());
+    }
+    write_abort_evidence(p, opts, "abort confirmed");
 }
